@@ -37,12 +37,13 @@ def main():
         needs = first_para(notes, 'needs') or first_para(notes, 'manifest') or first_para(notes, 'trigger') or ' '.join(notes.split())[:600]
         meta = {
             'seed': name,
-            'property': name.split('-')[0],
+            'property': [x for x in name.split('-') if x.startswith('C')][0],
+            'kind': v.get('kind', 'break'),
             'origin': 'independent sub-agent given only the property text and a scratch worktree of /repo',
             'breaks': 'see notes.md (written by the seeding agent)',
             'needs_to_manifest': needs,
             'confirmed_by': {
-                'ran': ['demo.py on a clean scratch worktree of /repo HEAD (must exit 0)', 'git apply patch.diff', 'import xdoctest', 'demo.py with the patch (must exit 1)',
+                'ran': ['demo.py on a clean scratch worktree of /repo HEAD (must exit 0)', 'git apply patch.diff', 'import xdoctest', 'demo.py with the patch (must exit 1 for a breaking change, 0 with the same digest for a refactoring)',
                         'full suite: python -m pytest -q -p no:cacheprovider --timeout=900 (must be 298 passed, only the two always-failing test_entry_point tests failing)'],
                 'demo_clean_rc': v['demo_clean']['rc'], 'demo_patched_rc': v['demo_patched']['rc'], 'suite': v['suite'], 'at': v.get('at'),
             },
